@@ -1,0 +1,9 @@
+//go:build verif
+
+package market
+
+// Machine-checked contracts for the govc verifier (/verif). Comment-only; compiled only with -tags verif.
+
+//@ func BeginBlocker
+//@   property C17, C15
+//@   nopanic
